@@ -14,7 +14,7 @@ Import RecordSetNotations.
 From EV Require Import Base.Str Model.Value Model.Keyspace Model.Reply Model.Prog Model.Dispatch Model.SnapCodec Model.SnapFs Model.Snapshot Model.SnapServer.
 From EV Require Import Model.Conc.
 From EV Require Import Proofs.KeyspaceLemmas Proofs.SnapCodecProofs Proofs.SnapProofs Proofs.SnapRoundTrip.
-From EV Require Import Proofs.ConcLemmas Proofs.ConcSerial Proofs.ConcTheorems Proofs.SnapConc.
+From EV Require Import Proofs.ConcLemmas Proofs.ConcSerial Proofs.ConcTheorems Proofs.SnapConc Proofs.SnapCount.
 Local Open Scope Z_scope.
 
 Section C03.
@@ -96,6 +96,41 @@ Theorem C03_no_early_snapshot thr (x : sfs) s ls :
   st_changes s < thr -> tick c hash thr x s ls = (x, s, ls, None).
 Proof. apply tick_below. Qed.
 
+(** The trigger and the writes served while a snapshot is being written.  [take_snapshot_during x s0 s1]: the
+    state is copied when the store is [s0], the files are written from the copy, the store is [s1] when the
+    attempt ends.  The files, the outcome and LASTSAVE are those of a snapshot of [s0]
+    ([C03_snapshot_during_is_of_the_copy]); the writes served meanwhile — any program [p] — are not in the
+    snapshot and are all still counted when it ends ([C03_changes_during_snapshot_counted]); when they and the
+    writes after the attempt ([q]) together reach the threshold, the next tick attempts a snapshot
+    ([C03_trigger_after_snapshot]): "no later than one interval after the configured number of writes has
+    accumulated" also when some of those writes arrived while the previous snapshot was written.  The code
+    before the repair reset the counter and forgot them: [C03_counter_reset_refuted]. *)
+Theorem C03_snapshot_during_quiet (x : sfs) s ls fail :
+  take_snapshot_during c hash x s s ls fail = take_snapshot c hash x s ls fail.
+Proof. apply take_snapshot_during_quiet. Qed.
+
+Theorem C03_snapshot_during_is_of_the_copy (x : sfs) s0 s1 ls fail :
+  let '(x', _, ls', r) := take_snapshot_during c hash x s0 s1 ls fail in
+  let '(x'', _, ls'', r') := take_snapshot c hash x s0 ls fail in
+  x' = x'' /\ ls' = ls'' /\ r = r'.
+Proof. apply take_snapshot_during_files. Qed.
+
+Theorem C03_changes_during_snapshot_counted {R} (x : sfs) s0 ls d (p : prog R) :
+  let s1 := (run_seq d p s0).1 in
+  let '(_, s', _, r) := take_snapshot_during c hash x s0 s1 ls None in
+  r = SnapOk -> st_changes s' = st_changes s1 - st_changes s0 /\ 0 <= st_changes s'.
+Proof. apply changes_during_snapshot_counted. Qed.
+
+Theorem C03_trigger_after_snapshot {R R'} thr (x : sfs) s0 ls d (p : prog R) d' (q : prog R') :
+  let s1 := (run_seq d p s0).1 in
+  let '(x', s', ls', r) := take_snapshot_during c hash x s0 s1 ls None in
+  r = SnapOk ->
+  let s2 := (run_seq d' q s').1 in
+  thr <= (st_changes s1 - st_changes s0) + (st_changes s2 - st_changes s') ->
+  tick c hash thr x' s2 ls' =
+    let '(x'', s'', ls'', r') := take_snapshot c hash x' s2 ls' None in (x'', s'', ls'', Some r').
+Proof. apply trigger_after_snapshot. Qed.
+
 (** A snapshot taken while writers are active.  For every pool of concurrently running commands (any
     programs over the keyspace primitives, hence every handler with any arguments) and state copies,
     every initial store and every schedule that completes: the lock-acquisition order [perm] is the serial
@@ -143,6 +178,25 @@ Theorem C03_concurrent_snapshot_with_expiry (acts : gmap nat act) s0 sched (t : 
 Proof. exact (concurrent_snapshot_with_expiry c Hc hash acts s0 sched t). Qed.
 
 End C03.
+
+(** The change counter as it was handled before the repair (set to zero when the attempt ends): one write served
+    while the snapshot is written, threshold 1.  The attempt completes, the write is not in the published snapshot,
+    one change has accumulated — and the next tick does nothing.  On the repaired model the same tick takes the
+    snapshot ([C03_counter_discount_example]). *)
+Theorem C03_counter_reset_refuted :
+  let s0 := init_state 100 in
+  let s1 := (run_seq 0 wit_prog s0).1 in
+  let '(x', s', ls', r) := take_snapshot_during_legacy wit_codec (H:=snapobj) (fun o => o) fs_empty s0 s1 0 None in
+  r = SnapOk /\ 1 <= st_changes s1 - st_changes s0 /\
+  restore_read x' = Some (snapshot_object wit_codec s0 100) /\
+  tick wit_codec (H:=snapobj) (fun o => o) 1 x' s' ls' = (x', s', ls', None).
+Proof. exact counter_reset_forgets_writes. Qed.
+Example C03_counter_discount_example :
+  let s0 := init_state 100 in
+  let s1 := (run_seq 0 wit_prog s0).1 in
+  let '(x', s', ls', r) := take_snapshot_during wit_codec (H:=snapobj) (fun o => o) fs_empty s0 s1 0 None in
+  r = SnapOk /\ (tick wit_codec (H:=snapobj) (fun o => o) 1 x' s' ls').2 = Some SnapOk.
+Proof. exact counter_discount_keeps_writes. Qed.
 
 (** The trigger as it was written before the fix ([changeCount == threshold]) misses the snapshot as soon
     as one more write than the threshold falls between two ticks. *)
@@ -243,6 +297,11 @@ Print Assumptions C03_lastsave_restart.
 Print Assumptions C03_auto_trigger.
 Print Assumptions C03_auto_trigger_outcome.
 Print Assumptions C03_no_early_snapshot.
+Print Assumptions C03_snapshot_during_quiet.
+Print Assumptions C03_snapshot_during_is_of_the_copy.
+Print Assumptions C03_changes_during_snapshot_counted.
+Print Assumptions C03_trigger_after_snapshot.
+Print Assumptions C03_counter_reset_refuted.
 Print Assumptions C03_equality_trigger_refuted.
 Print Assumptions C03_keyname_collision_refuted.
 Print Assumptions C03_concurrent_snapshot.
